@@ -277,12 +277,19 @@ impl Ctx {
         (w, content_changed, sig_changed)
     }
 
-    /// the set one of whose shreds `w` is, up to tag and signature
+    /// the (first) set one of whose shreds `w` is, up to tag and signature
     fn genuine_set(&self, w: &Wire) -> Option<usize> {
-        self.sets.iter().position(|st| match st.wires.get(w.shred_index as usize) {
-            Some(g) => w.slot == g.slot && w.slice_index == g.slice_index && w.is_last == g.is_last && w.data == g.data && w.path == g.path,
-            None => false,
-        })
+        self.genuine_sets(w).first().copied()
+    }
+
+    /// all sets one of whose shreds `w` is, up to tag and signature (they have the same commitment bytes)
+    fn genuine_sets(&self, w: &Wire) -> Vec<usize> {
+        (0..self.sets.len())
+            .filter(|&k| match self.sets[k].wires.get(w.shred_index as usize) {
+                Some(g) => w.slot == g.slot && w.slice_index == g.slice_index && w.is_last == g.is_last && w.data == g.data && w.path == g.path,
+                None => false,
+            })
+            .collect()
     }
 
     fn validate(&self, w: &Wire, cached: Option<&SliceCommitment>, pk: usize) -> (Verdict, Option<ValidatedShred>) {
@@ -308,7 +315,10 @@ impl Ctx {
             return Verdict::InvalidSignature;
         };
         let _ = content_changed;
-        let sig_valid = w.sig == self.sets[g].wires[0].sig && pk == self.sets[g].key;
+        // two sets can have the very same content (an empty payload without parent and marker for the same slot and
+        // slice index, signed by two keys: same commitment bytes, different signatures): the signature is valid if it is
+        // the one of ANY set with this content, made by the key it is checked against
+        let sig_valid = self.genuine_sets(w).iter().any(|&g| w.sig == self.sets[g].wires[0].sig && pk == self.sets[g].key);
         let cache_is_own = cache.map(|c| self.sets[c].cbytes == self.sets[g].cbytes);
         match cache_is_own {
             // the identical commitment is cached: the check of the signature may be skipped - for the very signature
